@@ -559,3 +559,53 @@ pub fn run_sock(args: &[&str]) -> String {
         format!("DEAD {:x}", sent)
     }
 }
+
+/// SOCKR name-hex response-hex...: the one-shot resolver on real sockets. For each response datagram a sender thread multicasts it
+/// a few times while the resolver is waiting for answers to its SRV query and then to its A query for `name`; what the resolver
+/// returns depends on timing and is not compared - it must return (a panic is caught by the case runner).
+pub fn run_sockr(args: &[&str]) -> String {
+    use simple_mdns::sync_discovery::OneShotMdnsResolver;
+    use std::net::UdpSocket;
+    if args.is_empty() {
+        return "BADCASE".into();
+    }
+    let name = match hex_to_bytes(args[0]).and_then(|b| String::from_utf8(b).ok()) {
+        Some(n) => n,
+        None => return "BADCASE".into(),
+    };
+    let dgrams: Option<Vec<Vec<u8>>> = args[1..].iter().map(|t| hex_to_bytes(t)).collect();
+    let dgrams = match dgrams {
+        Some(d) => d,
+        None => return "BADCASE".into(),
+    };
+    let mut resolver = match OneShotMdnsResolver::new() {
+        Ok(r) => r,
+        Err(_) => return "NOSOCKET".into(),
+    };
+    resolver.set_query_timeout(Duration::from_millis(220));
+    resolver.set_unicast_response(false);
+    let mut answered = 0usize;
+    for d in &dgrams {
+        for which in 0..2 {
+            let d2 = d.clone();
+            let sender = std::thread::spawn(move || {
+                if let Ok(sock) = UdpSocket::bind("0.0.0.0:0") {
+                    for _ in 0..3 {
+                        std::thread::sleep(Duration::from_millis(35));
+                        let _ = sock.send_to(&d2, "224.0.0.251:5353");
+                    }
+                }
+            });
+            let got = if which == 0 {
+                resolver.query_service_address_and_port(&name).map(|x| x.is_some())
+            } else {
+                resolver.query_service_address(&name).map(|x| x.is_some())
+            };
+            if let Ok(true) = got {
+                answered += 1;
+            }
+            let _ = sender.join();
+        }
+    }
+    format!("DONE {:x} {:x}", dgrams.len(), answered)
+}
